@@ -17,7 +17,7 @@ var probeKinds = []string{
 	"q-entity-before-next", "q-get-before-next", "q-entity-after-exhaustion", "q-get-after-exhaustion", "q-next-after-exhaustion", "q-next-twice-after-exhaustion", "q-next-twice-after-close",
 	"q-next-after-close", "q-entity-after-close", "q-count-after-close", "q-relation-before-next",
 	"unsafe-get-missing", "unsafe-getrel-missing", "unsafe-has-missing", "map-get-missing", "map-set-missing", "mapn-set-missing", "mapn-getrel-missing",
-	"map-getunchecked-dead", "unsafe-hasunchecked-dead",
+	"map-getunchecked-dead", "unsafe-hasunchecked-dead", "unsafe-getunchecked-dead", "unsafe-getrelunchecked-dead", "map-getrelunchecked-dead",
 }
 
 // opProbe executes a probe on every backend, traces the outcome and re-reads the values of the touched entity.
@@ -176,6 +176,16 @@ func (it *Interp) execProbe(b *Backend, op *Op) string {
 		return fmt.Sprint(p == nil)
 	case "unsafe-hasunchecked-dead":
 		return fmt.Sprint(b.U.HasUnchecked(h, b.IDs[c]))
+	case "unsafe-getunchecked-dead":
+		p := b.U.GetUnchecked(h, b.IDs[c])
+		if p == nil {
+			return "nil"
+		}
+		return fmt.Sprint(comps.GetV(c, p))
+	case "unsafe-getrelunchecked-dead":
+		return fmt.Sprint(b.serialOrRaw(b.U.GetRelationUnchecked(h, b.IDs[c])))
+	case "map-getrelunchecked-dead":
+		return fmt.Sprint(b.serialOrRaw(b.Mapper(c).GetRelationUnchecked(h, 0)))
 	}
 	panic("unknown probe " + op.Sub)
 }
@@ -215,9 +225,27 @@ func (g *Gen) genProbe(t *rapid.T) *Op {
 	e := &m.Ents[op.E]
 	missing := listOf(^e.Mask)
 	switch op.Sub {
-	case "map-getunchecked-dead", "unsafe-hasunchecked-dead":
-		// unchecked calls on an alive entity (dead handles are undefined for unchecked variants)
+	case "map-getunchecked-dead", "unsafe-hasunchecked-dead", "unsafe-getunchecked-dead", "unsafe-getrelunchecked-dead", "map-getrelunchecked-dead":
+		// unchecked calls on an alive entity or on a removed one (the model has no opinion about the latter, the
+		// builds are compared with each other); handles whose ID is in use again are preferred
 		op.Comps = []int{rapid.IntRange(0, comps.N-1).Draw(t, "comp")}
+		if strings.Contains(op.Sub, "getrel") {
+			op.Comps = []int{rapid.SampledFrom(listOf(comps.RelMask)).Draw(t, "relComp")}
+		}
+		var dead, reused []int
+		for s := range m.Ents {
+			if !m.Ents[s].Alive {
+				dead = append(dead, s)
+				if g.It.staleClass(s) == "dead-id-reused" {
+					reused = append(reused, s)
+				}
+			}
+		}
+		if len(reused) > 0 && rapid.Bool().Draw(t, "reusedID") {
+			op.E = rapid.SampledFrom(reused).Draw(t, "staleEntity")
+		} else if len(dead) > 0 && rapid.IntRange(0, 3).Draw(t, "deadHandle") == 0 {
+			op.E = rapid.SampledFrom(dead).Draw(t, "deadEntity")
+		}
 		return op
 	case "mapn-set-missing", "mapn-getrel-missing":
 		// a mapper of arity >= 2 of which the entity has some but not all components (if possible)
@@ -251,3 +279,14 @@ func (g *Gen) genProbe(t *rapid.T) *Op {
 }
 
 var _ = ecs.Entity{}
+
+// serialOrRaw renders a handle returned by a probe in a build-independent way.
+func (b *Backend) serialOrRaw(e ecs.Entity) string {
+	if e.IsZero() {
+		return "zero"
+	}
+	if s, ok := b.Ser[e]; ok {
+		return fmt.Sprint("#", s)
+	}
+	return fmt.Sprint(e)
+}
